@@ -3,6 +3,7 @@ from __future__ import annotations
 
 import itertools
 import os
+import sys
 import random
 import re
 import shutil
@@ -33,7 +34,8 @@ REQUIRED = {"match.instance_matches": {"quick": 3000, "thorough": 150000}, "args
             "cucumber.lookup": {"quick": 1000, "thorough": 50000}, "registry.find_step_definition_agrees_with_find_match": {"quick": 3000, "thorough": 150000},
             "registry.partial_converter_lookup": {"quick": 2000, "thorough": 100000}, "lookups_ending_in_converter_error": {"quick": 200, "thorough": 10000}, "modules.default_matcher_reset": {"quick": 100, "thorough": 800},
             "wrapper.span_invariant_on_every_match": {"quick": 5000, "thorough": 250000}}
-REQUIRED_SEEN = {"cucumber_expression_parameters": ["none", "1", "2", "no_match"],
+REQUIRED_SEEN = {"step_function_flavour": ["sync", "async_plain", "async_with_timeout"], "step_module_imports_another": ["yes"],
+                 "cucumber_expression_parameters": ["none", "1", "2", "no_match"],
                  "project_default_given_by": ["use_default_step_matcher", "use_step_matcher_before_loading"], "matcher_kind": KINDS, "token_kind": ["lit", "named", "int", "word", "float", "custom", "many", "optional", "rnamed", "runnamed", "roptional"]}
 EXHAUSTIVE = {"quick": True, "thorough": True}
 EXHAUSTIVE_SCOPE = "all ordered registration histories up to the length bound over a 6-entry pattern pool x 3 step types"
@@ -291,8 +293,16 @@ class Lab(object):
         """A recording step function with its OWN source location (file + line), as real step functions have:
         the registry identifies 'the very same function' by pattern + location."""
         self._nfn = getattr(self, "_nfn", 0) + 1
-        src = "\n" * self._nfn + "def fn_%d(context, *args, **kwargs):\n    calls.append((fid, args, kwargs))\n" % self._nfn
-        ns = {"calls": self.calls, "fid": fid}
+        flavour = {0: "async_with_timeout", 1: "async_plain"}.get(self._nfn % 7, "sync")
+        if flavour == "sync":
+            src = "\n" * self._nfn + "def fn_%d(context, *args, **kwargs):\n    calls.append((fid, args, kwargs))\n" % self._nfn
+        else:
+            # a coroutine step wrapped with behave's own decorator (both forms): it receives what a plain function receives
+            deco = "@async_run_until_complete(timeout=30)" if flavour == "async_with_timeout" else "@async_run_until_complete"
+            src = "\n" * self._nfn + "%s\nasync def fn_%d(context, *args, **kwargs):\n    calls.append((fid, args, kwargs))\n" % (deco, self._nfn)
+        self.mon.seen("step_function_flavour", flavour)
+        from behave.api.async_step import async_run_until_complete
+        ns = {"calls": self.calls, "fid": fid, "async_run_until_complete": async_run_until_complete}
         # two source files only: many different functions share a file and differ in their line alone (copy/paste duplicates
         # inside one steps module), others live in different files
         exec(compile(src, "/verif/generated_steps/steps_%s.py" % "ab"[self._nfn % 3 == 0], "exec"), ns)
@@ -531,7 +541,11 @@ def module_loading(lab, mon, rng):
             fh.write("from behave import step\n@step('delta {n:d} (times)')\ndef s4(context, n):\n    context.got = ('parse', n)\n")
         step_registry.registry.clear()
         matchers.use_default_step_matcher("parse")
-        runner_util.load_step_modules([root])
+        try:
+            runner_util.load_step_modules([root])
+        except Exception as ex:
+            mon.check("modules.default_matcher_reset", False, dict(modules="a_first (re), b_second, c_third (cfparse), d_fourth", error=repr(ex)))
+            return
         reg = step_registry.registry
         results = {}
         for text in ("alpha 3 times", "beta 4 times", "gamma 1, 2 times", "delta 5 (times)"):
@@ -563,6 +577,8 @@ def module_loading_random(lab, mon, rng):
     default = rng.choice(["parse", "parse", "re", "cfparse"])
     k = rng.randint(2, 6)
     plan, want = [], {}
+    modnames = []
+    imported = None
     try:
         for i in range(k):
             choice = rng.choice([None, None, "re", "parse", "cfparse", "re0"])
@@ -581,10 +597,19 @@ def module_loading_random(lab, mon, rng):
             with open(os.path.join(root, "m%02d_%s.py" % (i, word)), "w") as fh:
                 fh.write(src)
             plan.append((choice, effective, word, deco))
+            modnames.append("m%02d_%s" % (i, word))
             # a definition made with @given / @Given answers Given steps only (likewise when/then); @step / @Step answers all
             for st_type in ("given", "when", "then"):
                 binds = deco.lower() in ("step", st_type)
                 want[(st_type, text)] = (word, value) if binds else None
+        later = [j for j in range(1, k) if plan[j][0]]
+        if later and rng.random() < 0.4:
+            # the first module imports a later one at its end (shared steps): when behave loads that module itself afterwards, its
+            # definitions are "the very same" ones and are ignored -- wherever the process was started (here: not in the project)
+            imported = modnames[rng.choice(later)]
+            with open(os.path.join(root, modnames[0] + ".py"), "a") as fh:
+                fh.write("import %s\n" % imported)
+            mon.seen("step_module_imports_another", "yes")
         step_registry.registry.clear()
         if rng.random() < 0.5:
             matchers.use_default_step_matcher(default)
@@ -595,7 +620,12 @@ def module_loading_random(lab, mon, rng):
             matchers.use_default_step_matcher("parse")
             matchers.use_step_matcher(default)
             mon.seen("project_default_given_by", "use_step_matcher_before_loading")
-        runner_util.load_step_modules([root])
+        try:
+            runner_util.load_step_modules([root])
+        except Exception as ex:
+            mon.check("modules.default_matcher_reset", False,
+                      lambda: dict(default=default, modules=[list(p) for p in plan], first_module_imports=imported, error=repr(ex)))
+            return
         reg = step_registry.registry
         results = {}
         for (st_type, text) in want:
@@ -619,6 +649,8 @@ def module_loading_random(lab, mon, rng):
     finally:
         step_registry.registry.steps = saved
         matchers.use_default_step_matcher("parse")
+        for nm in modnames:
+            sys.modules.pop(nm, None)
         shutil.rmtree(root, ignore_errors=True)
 
 
